@@ -22,6 +22,10 @@ EXPECT_STATUS_500 = {"IO", "InternalServiceError"}
 ONLY_4XX = {"InvalidContentType", "InvalidRequestMethod"}
 
 
+class NotKindOnly(AnchorMissing):
+    """the table function's result depends on something besides which variant `self` is"""
+
+
 def eval_enum_fn(body, adt):
     """{variant name: constant value} for a fn(&Enum) -> const whose result depends on the discriminant only.
     Exact evaluation per variant in a tiny domain: self, constants, tuples of those (a helper returning
@@ -32,7 +36,7 @@ def eval_enum_fn(body, adt):
 
     def read(env, p):
         if p["local"] not in env:
-            raise AnchorMissing("%s: result depends on more than the discriminant (local _%d)" % (body.path, p["local"]))
+            raise NotKindOnly("%s: result depends on more than the discriminant (local _%d)" % (body.path, p["local"]))
         x = env[p["local"]]
         for e in p["proj"]:
             if e == "deref":
@@ -41,7 +45,7 @@ def eval_enum_fn(body, adt):
                 x = x[1][e["idx"]]
                 continue
             if x == SELF:
-                raise AnchorMissing("%s: result depends on more than the discriminant (a field of self is read)" % body.path)
+                raise NotKindOnly("%s: result depends on more than the discriminant (a field of self is read)" % body.path)
             raise AnchorMissing("%s: unsupported projection" % body.path)
         return x
 
@@ -73,7 +77,7 @@ def eval_enum_fn(body, adt):
                 elif rv["k"] == "aggregate" and rv.get("tuple"):
                     env[d["local"]] = ("tuple", [("const", op_const(o)) if op_const(o) is not None else read(env, op_place(o)) for o in rv["ops"]])
                 else:
-                    raise AnchorMissing("%s: result depends on more than the discriminant (%s at %s)" % (body.path, rv["k"], loc(s["span"])))
+                    raise NotKindOnly("%s: result depends on more than the discriminant (%s at %s)" % (body.path, rv["k"], loc(s["span"])))
             t = b["term"]
             if t["k"] == "goto":
                 blk = t["target"]
@@ -109,8 +113,13 @@ def r1(ctx):
         except AnchorMissing:
             return ctx.fn("<error::SignatureError as scratchstack_errors::ServiceError>::" + m), False
     (fst, inh_st), (fcode, inh_code) = table_fn("http_status"), table_fn("error_code")
-    st = eval_enum_fn(fst, adt)
-    code = eval_enum_fn(fcode, adt)
+    try:
+        st = eval_enum_fn(fst, adt)
+        code = eval_enum_fn(fcode, adt)
+    except NotKindOnly as e:
+        # one error kind with two codes / statuses: the taxonomy is no longer a table keyed by the kind
+        yield VIOL("C13-R1", "error-table/not-a-function-of-the-kind", "the error code / HTTP status of a SignatureError is computed from more than its kind (a payload is inspected, a helper is consulted): %s" % e.what, where="src/error.rs")
+        return
     ctx.count(2 * len(st))
     ctx.extra["taxonomy"] = {v: {"status": st[v], "code": code[v]} for v in st}
     ctx.extra["taxonomy_exhaustive"] = True
